@@ -4,6 +4,7 @@ CONSTANTS HC = 7  Mins = {3}  Families = {"planes"}
 INIT Init
 NEXT Next
 INVARIANT AtMostTwoRows
+INVARIANT AverageIsMeanOfKeptRows
 INVARIANT StrictlyIncreasing
 INVARIANT OnlyCandidates
 INVARIANT NoThinCells
